@@ -267,7 +267,8 @@ def monitored_codes():
     import chameleon.template as T
     import chameleon.loader as L
     codes = [T.BaseTemplate.cook.__code__, T.BaseTemplate._cook.__code__, T.BaseTemplateFile.cook_check.__code__,
-             T.BaseTemplateFile.read.__code__, L.TemplateLoader.load.__code__, L.MemoryLoader.build.__code__]
+             T.BaseTemplateFile.read.__code__, L.TemplateLoader.load.__code__, L.MemoryLoader.build.__code__,
+             L.ModuleLoader.get.__code__, L.ModuleLoader.build.__code__, L.ModuleLoader._load.__code__]
     # TemplateLoader.load is wrapped by the registry decorator; monitor the wrapper and the wrapped function
     fn = L.TemplateLoader.load
     if getattr(fn, '__closure__', None):
@@ -321,10 +322,32 @@ class Scenario:
             t = PageTemplateFile(inc)
             self.calls = {'A': lambda: t(x=1), 'B': lambda: t(x=2)}
             self.want = {'A': '<x><q>[1]</q>1</x>', 'B': '<x><q>[2]</q>2</x>'}
+        elif self.kind in ('disk-cache-shared-instance', 'disk-cache-two-instances', 'disk-cache-prepopulated'):
+            # the on-disk module cache (what CHAMELEON_CACHE / debug=True switch on)
+            from chameleon.loader import ModuleLoader
+            cache = os.path.join(d, 'cache')
+            os.mkdir(cache)
+            ml = ModuleLoader(cache)
+            # (the file name is part of the cache key: a fresh directory means a module nobody has imported yet)
+            write_file(a, '<p tal:repeat="i xs">${i}${x}</p>', 1000)
+
+            def mk():
+                t = PageTemplateFile(a)
+                t.loader = ml
+                return t
+            if self.kind == 'disk-cache-prepopulated':
+                mk()(x=0, xs=[])
+                for fn in os.listdir(cache):
+                    sys.modules.pop(os.path.splitext(fn)[0], None)
+            t1 = mk()
+            t2 = t1 if self.kind == 'disk-cache-shared-instance' else mk()
+            self.calls = {'A': lambda: t1(x=1, xs=[1, 2]), 'B': lambda: t2(x=2, xs=[3])}
+            self.want = {'A': '<p>11</p><p>21</p>', 'B': '<p>32</p>'}
         return self.calls
 
 
-SCENARIOS = ['lazy-first-render', 'auto-reload-after-change', 'shared-loader', 'load-chain']
+SCENARIOS = ['lazy-first-render', 'auto-reload-after-change', 'shared-loader', 'load-chain',
+             'disk-cache-shared-instance', 'disk-cache-two-instances', 'disk-cache-prepopulated']
 
 
 def layer_scheduler(ctx):
